@@ -7,6 +7,9 @@
                                                                             <thread> = which harness thread constructs and
                                                                             sends the message (0 = main); the model ignores
                                                                             it: the rules are about the sequence a handler sees
+     a:<object>:<type>:<flags>:<text>[:<thread>]                            a direct call, by another user of the object,
+                                                                            of attributes(msg) (SeqNumberAttr) / filter(msg)
+                                                                            (filters) on handler object number <object>
    <t> / <type> = numeric QtMsgType (0 debug 1 warning 2 critical 3 fatal 4 info).
    <ast> (prefix form): e  ^  $  .  c<hex>;  [<0|1><lo>-<hi>,...;  *X  +X  ?X  &XY  |XY
    Observations: per message the handler calls in order, "1"/"0" = verdict, "1=<n>" = sequence
@@ -65,10 +68,12 @@ let parse_scenario (line : string) : scenario =
         | _ -> failwith "object") in os := h :: !os
     | 'p' -> ps := List.filter_map (fun x -> if x = "" then None else Some (nat_of_int (int_of_string x)))
                      (String.split_on_char ',' body) :: !ps
-    | 'm' -> (match String.split_on_char ':' body with
-        | p :: t :: fl :: tx :: _ -> ms := (nat_of_int (int_of_string p),
-                                   { mt = mt_of (int_of_string t); text = units tx; flags = n_of_int (int_of_string fl);
-                                     fmt = None; attrs = [] }) :: !ms
+    | 'm' | 'a' -> (match String.split_on_char ':' body with
+        | p :: t :: fl :: tx :: _ ->
+            let k = nat_of_int (int_of_string p) in
+            let m = { mt = mt_of (int_of_string t); text = units tx; flags = n_of_int (int_of_string fl);
+                      fmt = None; attrs = [] } in
+            ms := (if tok.[0] = 'm' then Send (k, m) else Direct (k, m)) :: !ms
         | _ -> failwith "message")
     | _ -> failwith "token" end) (String.split_on_char ' ' line);
   { objs = List.rev !os; pipes = List.rev !ps; feed = List.rev !ms }
